@@ -47,8 +47,23 @@ def check_binarizer_pairing(ctx, F, rule):
             idx, val = [ast.unparse(e) for e in g.generators[0].target.elts]
             ok = [ast.unparse(a) for a in call.args] == ["decisions[%s]" % idx, val] and \
                 ast.unparse(call.func) == "self.binarizer"
+    if not ok:
+        # form B: arm by arm through one mask:  for a in np.unique(decisions): m = decisions == a;
+        #                                        out[m] = [self.binarizer(a, v) for v in rewards[m]]
+        from .pattern import find
+        from ..model import canon_eq
+        for loop in [x for x in ast.walk(fb.node) if isinstance(x, ast.For) and isinstance(x.target, ast.Name)]:
+            a = loop.target.id
+            if ast.unparse(loop.iter) not in ("np.unique(decisions)", "set(decisions)", "np.unique(decisions).tolist()"):
+                continue
+            mn, mb = find("_M_ = %s" % canon_eq("decisions", a), loop)
+            if mn is None:
+                continue
+            sn, _ = find("_OUT_[_M_] = [self.binarizer(%s, _V_) for _V_ in rewards[_M_]]" % a, loop, mb)
+            ok = sn is not None
     ctx.check(ok, rule, "the binarizer receives the decision and the reward of the same row", fb.node, fb,
-              construct="def _ThompsonSampling._get_binary_rewards")
+              "neither `self.binarizer(decisions[i], value) for i, value in enumerate(rewards)` nor the arm-by-arm "
+              "form over one mask of `decisions == arm`", construct="def _ThompsonSampling._get_binary_rewards")
     # on the traces: decisions and rewards handed to _get_binary_rewards stem from the same rows
     from ..facts import calls_of
     n_al = 0
@@ -105,6 +120,23 @@ def check(ctx):
                     lab_coll = eng.is_label_collection(a0) or "label" in a0.tags
                     lab_dict = any(eng.obj(r).cls == "dict" and eng.obj(r).keys is not None and
                                    "label" in eng.obj(r).keys.tags for r in a0.refs if r in eng.heap.objs)
+                    # a collection of tuples with a label component: ordering the tuples falls through to the
+                    # labels whenever the earlier components tie
+                    lab_tuple = False
+                    for r in a0.refs:
+                        o = eng.heap.objs.get(r)
+                        el = o.elem if o is not None else None
+                        if el is not None and el.extra is not None and el.extra[0] == "tuple" and any(
+                                "label" in x.tags or "labels" in x.tags for x in el.extra[1]):
+                            lab_tuple = True
+                    if lab_tuple and name in ("min", "max", "sorted", ".sort") and \
+                            ev.a.get("kwargs", {}).get("key") is None:
+                        n_calls += 1
+                        ctx.violate("R20.1", "%s over tuples that contain an arm label" % name.lstrip("."), ev.node,
+                                    ev.fn, "tuples are compared component by component: when the other components "
+                                    "tie, the labels are compared, so the result depends on the arm names "
+                                    "[%s %s]" % (c.name, label))
+                        continue
                     if lab_coll or lab_dict:
                         n_tagged += 1
                     if name not in ORDERING_CALLS:
